@@ -16,7 +16,7 @@ TypesOfDepth(d) ==
 Types == TypesOfDepth(D)
 
 Atoms == {VNull, VBool(TRUE), VInt(5), VFloat("1.5"), VStr("x"), VStr("12"), VStr("RED"), VStr("red"), VStr("PURPLE"),
-          VNum("7"), VNum("1.5"), VNum("zz")}
+          VNum("7"), VNum("1.5"), VNum("zz"), VStr("0x1F"), VStr("1_000")}
 \* maps for In: field a good / null / wrong / missing; b absent / empty list / single map / list with a bad map; c; d; unknown key
 GoodIn == VMap(<<Ent("a", VInt(5))>>)
 Maps == { VMap(<<Ent("a", VInt(5))>>), VMap(<<>>), VMap(<<Ent("a", VNull)>>), VMap(<<Ent("a", VStr("x"))>>),
@@ -31,7 +31,13 @@ Maps == { VMap(<<Ent("a", VInt(5))>>), VMap(<<>>), VMap(<<Ent("a", VNull)>>), VM
           VMap(<<Ent("a", VFloat("1.5")), Ent("c", VNull), Ent("d", VStr("x"))>>),
           VMap(<<Ent("a", VInt(5)), Ent("d", VNull)>>),
           VMap(<<Ent("a", VNum("7")), Ent("d", VNum("7"))>>),
-          VMap(<<Ent("a", VNum("1.5"))>>) }
+          VMap(<<Ent("a", VNum("1.5"))>>),
+          \* "__typename" stands for no field: as many keys as fields and still one required field missing
+          VMap(<<Ent("__typename", VStr("In")), Ent("a", VInt(5))>>),
+          VMap(<<Ent("__typename", VStr("In")), Ent("b", VList(<<>>)), Ent("c", VStr("RED")), Ent("d", VStr("x"))>>),
+          VMap(<<Ent("__typename", VInt(1)), Ent("a", VInt(5)), Ent("b", VNull), Ent("c", VNull), Ent("d", VStr("x"))>>),
+          VMap(<<Ent("__typename", VNull), Ent("zz", VInt(1)), Ent("b", VNull), Ent("c", VNull), Ent("d", VStr("x"))>>),
+          VMap(<<Ent("a", VStr("0x1F"))>>) }
 
 RECURSIVE Gen(_), IsIntList(_, _)
 Gen(T) ==
